@@ -50,6 +50,14 @@ func decorate(t *rapid.T, v string) string {
 func gen(t *rapid.T) Case {
 	var c Case
 	base := rapid.SliceOfNDistinct(rapid.SampledFrom(names), 1, 7, rapid.ID[string]).Draw(t, "versions")
+	if rapid.IntRange(0, 7).Draw(t, "longList") == 0 {
+		// a list of a length beyond the usual: the names of the small pool scattered among generated ones
+		var gen []string
+		for i := 0; i < 40; i++ {
+			gen = append(gen, fmt.Sprintf("r%d", i), fmt.Sprintf("api/r%d", i))
+		}
+		base = rapid.Permutation(append(gen[:rapid.IntRange(6, 60).Draw(t, "longN")], base...)).Draw(t, "longPerm")
+	}
 	for _, v := range base {
 		c.Versions = append(c.Versions, decorate(t, v))
 	}
